@@ -1,0 +1,14 @@
+//go:build verif
+
+package pool
+
+// VerifYield, when set by the verification harness, is called at the synchronisation points of
+// the pool with the name of the point. It may block, which lets a harness order these events.
+// It only exists with the `verif` tag.
+var VerifYield func(point string)
+
+func verifYield(point string) {
+	if f := VerifYield; f != nil {
+		f(point)
+	}
+}
